@@ -15,9 +15,9 @@ CONFIG = {
                   "of InsecureSkipVerify and ClientAuth) are a universally quantified contract record in the "
                   "theorems, exercised but not verified by the matrix (5 server certificates x 3 client "
                   "certificates from a harness PKI).  Carriers driven end to end: StartTLS over an in-memory duplex "
-                  "and over TCP, TLS socket, stdio+tls, (thorough) StartTLS over UDP/kcp; wss and DNS are covered "
-                  "only through the shared code (same ClientConfig, same startTls) and the regenerated host "
-                  "argument of their NewClientConnection call.  UDP secret: both ends are proved to derive the "
+                  "and over TCP, TLS socket, stdio+tls, (thorough) StartTLS over UDP/kcp, HTTPS websocket, StartTLS "
+                  "over websocket; the DNS carrier is covered only through the shared code (same ClientConfig, same "
+                  "startTls) and the regenerated host argument of its NewClientConnection call.  UDP secret: both ends are proved to derive the "
                   "same key, and a protected endpoint is proved never to run unencrypted; on the current tree the "
                   "64-byte key is rejected by aes.NewCipher so a password-protected UDP endpoint does not start at "
                   "all (fail-closed, observed on the real code) and 'equal secret is admitted' is not exercised.  "
@@ -33,7 +33,7 @@ CONFIG = {
             "InsecureSkipVerify, ClientAuth, ServerName, error class or panic; the ServerName the real startTls "
             "carries into crypto/tls for 49+ host strings (host:port, IPv6 brackets, malformed); the real "
             "ConnectPacket/StartupPacket with absent / empty / 12 passwords.  authmatrix: per carrier {pipe, tcp, "
-            "tcp+tls, stdin+tls (+udp thorough)} x host x server certificate {good, nameonly, wronghost, untrusted, "
+            "tcp+tls, stdin+tls (+udp, wss, ws thorough)} x host x server certificate {good, nameonly, wronghost, untrusted, "
             "expired} x insecure x client certificate {none, good CA, foreign CA} x require-client-cert, full with "
             "both CAs configured, CA-absent variants sampled 1/4 (quick) or full (thorough); a cell is established "
             "iff 16 bytes make the round trip to a TCP echo target behind a server channel; refused cells must "
